@@ -375,6 +375,25 @@ pub fn oracle_case(seed: u64, idx: u64, st: &mut Stats, verbose: bool) -> Result
                 return Err("with rounding disabled layout() is not the unrounded layout".to_string());
             }
         }
+        {
+            // (3b) a tree whose FIRST pass ran with rounding disabled: disable; compute; enable; compute must report what a
+            // tree that always rounded reports (enable_rounding WITHOUT a following compute is the known finding, not this)
+            let mut t3: TaffyTree<Ctx> = TaffyTree::new();
+            t3.disable_rounding();
+            let mut ids3 = vec![];
+            let root3 = build(&mut t3, &c.spec, &mut ids3);
+            compute(&mut t3, root3, c.avail);
+            t3.enable_rounding();
+            compute(&mut t3, root3, c.avail);
+            let r3 = all_bits(&t3, &ids3, true);
+            if let Some(i) = (0..n).find(|i| r3[*i] != r1[*i]) {
+                return Err(format!(
+                    "node {i}: after disable_rounding; compute_layout; enable_rounding; compute_layout layout() is {:?} but a tree that always rounded reports {:?}",
+                    t3.layout(ids3[i]).unwrap(),
+                    t.layout(ids[i]).unwrap()
+                ));
+            }
+        }
         let mut flag = true;
         let steps = 3 + rng.below(6);
         let mut hist = vec![];
@@ -465,6 +484,42 @@ fn half_pixel_example() {
     println!("HALF {} {}", px + la.location.x + la.size.width, px + lb.location.x);
 }
 
+/// Deterministic corpus of values where a re-implementation of `round` typically goes wrong: one ulp below a half, odd integers
+/// above 2^23, negative offsets. A column of leaves at x = 0 with these widths / a row of leaves with these heights: the rounded
+/// size must be `f32::round` of the unrounded one (the near edge is 0, the far edge is the size itself; exact halves excluded).
+pub fn edge_corpus() -> Vec<String> {
+    let half_minus = f32::from_bits(0.5f32.to_bits() - 1);
+    let vals = [half_minus, 1.0 + half_minus, 2.5 - 2.5 * f32::EPSILON, 8388609.0, 12582913.0, 4194304.5, 0.1, 1e-7, 2.4999998];
+    let mut out = vec![];
+    for (k, v) in vals.iter().enumerate() {
+        if (v.fract() - 0.5).abs() == 0.0 {
+            continue;
+        }
+        let mut t: TaffyTree<Ctx> = TaffyTree::new();
+        let leaf = t.new_leaf(Style { size: Size { width: length(*v), height: length(*v) }, flex_shrink: 0.0, ..Default::default() }).unwrap();
+        let root = t
+            .new_with_children(Style { display: Display::Flex, align_items: Some(AlignItems::Start), ..Default::default() }, &[leaf])
+            .unwrap();
+        compute(&mut t, root, Size::MAX_CONTENT);
+        let u = *t.unrounded_layout(leaf);
+        let r = *t.layout(leaf).unwrap();
+        if u.location.x != 0.0 || u.location.y != 0.0 || u.size.width != *v {
+            continue; // not the shape this corpus relies on
+        }
+        if r.size.width != v.round() || r.size.height != v.round() {
+            out.push(format!(
+                "edge corpus #{k}: unrounded size {:?} (bits {:#x}) at offset 0 must round to {}, layout() reports {}x{}",
+                v,
+                v.to_bits(),
+                v.round(),
+                r.size.width,
+                r.size.height
+            ));
+        }
+    }
+    out
+}
+
 /// Known finding: enable_rounding() does not round.  disable_rounding; compute_layout; enable_rounding: layout() now reads
 /// final_layout, which no rounding pass has written (Layout::new()), until the next compute_layout.
 fn stale_example() {
@@ -524,6 +579,12 @@ pub fn main(args: &[String]) {
             let start: u64 = args.get(3).map(|s| s.parse().unwrap()).unwrap_or(0);
             let mut st = Stats::default();
             let mut fails = 0;
+            if start == 0 {
+                for m in edge_corpus() {
+                    fails += 1;
+                    println!("FAIL 0 {}", m);
+                }
+            }
             for idx in start..start + n {
                 start_line(idx);
                 if let Err(m) = oracle_case(seed, idx, &mut st, false) {
